@@ -6,9 +6,10 @@ FUNCTIONS = ["insert_sorted", "child_by_name", "mknode", "clamp_timestamp",
              "file_list_dfs", "reorder_hard_links (no-op on link-free trees)",
              "sqfs_hard_link_filter_create", "next (dir_hl.c)", "read_link (dir_hl.c)",
              "detect_hard_link", "store_hard_link", "compare_inum",
-             "rbtree_init / rbtree_insert / rbtree_lookup (real, NO_CUSTOM_ALLOC build option)"]
+             ]
 TRUSTED = [
     "calloc/strdup/free: typed fixed-size objects from run-local pools (mknode: may fail; hl: never fails)",
+    "rbtree (lib/util/src/rbtree.c) as a finite map with the tree's own compare hook deciding key equality - the real node layout makes cbmc 6.11 abort (bv_to_array_expr invariant)",
     "source directory iterator of the hard-link filter: delivers the given entries in the stated order, then end-of-directory",
     "fstree_resolve_hard_links in the post_process harness: nothing to resolve (trees without hard links; resolution is C07's)",
     "CBMC library models of strcmp/strncmp/strlen/strchr/strrchr/strcpy/memcpy/memset",
